@@ -1,2 +1,21 @@
-/- C12: no known findings.  (The fixpoint half is not a theorem; see Props/C12.lean and DESIGN.md.) -/
+/- C12: no open known findings.  (The fixpoint itself is not a theorem; see Props/C12.lean and DESIGN.md.)
+
+   Kernel-checked witness of the repaired defect /repo 7b517d1 (known_findings.json, "fixed: property=C12 7b517d1"):
+   eval3 evaluated `eval2(node->lhs, &l1) - eval2(node->rhs, &l2)` — both operands may exit with a diagnostic and C
+   leaves their order open, so the gcc-built and the self-compiled compiler diagnosed different operands of
+   `&&l - &&l`.  As the audit lists such a site (two operands with exitDiag), the decision function has no verdict
+   for it: had the site still been in the source, `C12_no_unsequenced_effects` would not hold. -/
 import ChibiVerif.Props.C12
+
+namespace ChibiVerif.Findings.C12
+open ChibiVerif.C12Audit
+
+def lhsEff : Eff := ⟨true, false, [0], [1], []⟩
+def rhsEff : Eff := ⟨true, false, [2], [1], []⟩
+def eval3_before_7b517d1 : Site :=
+  ⟨"parse.c", "eval3", 0, "binary -", "eval2(node->lhs, &l1) - eval2(node->rhs, &l2)", [], [lhsEff, rhsEff]⟩
+
+theorem C12_fixed_eval3_operand_order_witness :
+    verdict 0 eval3_before_7b517d1 = none ∧ conflict 0 false lhsEff rhsEff = true := by decide
+
+end ChibiVerif.Findings.C12
